@@ -10,6 +10,8 @@ def register(prop, J):
          jobs=[
              J("missing-v2", "v2", "codecprops", "^TestC06", checks=(12000, 600000), shards=(4, 16), prepare="prepare_codec",
                extra_pkgs=["dyn", "gendrv"], timeout=(900, 3000)),
+             J("missing-v1", "v1", "codecprops", "^TestC06", checks=(8000, 300000), shards=(4, 16), prepare="prepare_codec",
+               extra_pkgs=["dyn", "gendrv"], timeout=(900, 3000)),
          ],
          level_text="generated edit scripts over valid documents against a model of the missing-required-field set (full paths, one "
                     "error, nothing reported when nothing is missing) and of the partially decoded value, for four reader kinds",
